@@ -987,6 +987,22 @@ pub fn sdk_commands() -> Commands {
     c
 }
 
+static FULL: std::sync::OnceLock<SharedCommands> = std::sync::OnceLock::new();
+
+/// puts SDK commands that `sdk_commands` leaves out back into a registry (for a property whose world can hold them)
+pub fn add_sdk_commands(target: &mut Commands, names: &[&str]) {
+    let full = FULL.get_or_init(|| {
+        let mut commands = Commands::new();
+        duckscriptsdk::load(&mut commands).expect("sdk load");
+        SharedCommands(commands)
+    });
+    for n in names {
+        if let Some(cmd) = full.0.commands.get(*n).or_else(|| full.0.aliases.get(*n).and_then(|k| full.0.commands.get(k))) {
+            let _ = target.set(cmd.clone_and_box());
+        }
+    }
+}
+
 /// names of the SDK commands that are themselves written in duckscript (their help carries the source)
 pub fn script_command_names() -> &'static BTreeSet<String> {
     static NAMES: std::sync::OnceLock<BTreeSet<String>> = std::sync::OnceLock::new();
